@@ -394,6 +394,7 @@ def run(ctx):
                    "the quantifier; a zero reference is asserted for the attribute reader "
                    "(getLength: x% of 0 is 0) but not for unitsToUserUnits, whose optional "
                    "reference is documented as 'absent or falsy means none'"]
+    coverage["rule"] += ('; every attribute read repeated through one long-lived caller object whose document is replaced before each read and through one long-lived lxml document whose attribute is rewritten in place')
     return {"part": part, "coverage": coverage, "assumptions": assumptions}
 
 
